@@ -338,7 +338,8 @@ class Engine:
         self.mentioned.add(clskey)
         self.assume(so.typeof(r) == self.cids.cid(clskey))
         v = SV(Val.ref(r), ty)
-        self.fresh_objs[str(z3.simplify(v.term))] = ty
+        _t = z3.simplify(v.term)
+        self.fresh_objs[_t.get_id()] = (ty, _t)   # keep the term alive: ids are recycled after GC
         return v
 
     def refof(self, v, node=None):
@@ -415,7 +416,8 @@ class Engine:
             if t is None:
                 t = (Val.ref(z3.Const("fn!%s" % key, I)), v)
                 self.closures[key] = t
-            self.closures[str(t[0])] = t
+            _t = z3.simplify(t[0])
+            self.closures[_t.get_id()] = (t[0], t[1], _t)
             return t[0]
         if isinstance(v, PSet) and self.spec_mode:
             self.unsupported(node, "pure set as term")
@@ -431,17 +433,17 @@ class Engine:
 
     def from_term(self, term, ty=None):
         t = z3.simplify(term)
-        key = str(t)
+        key = t.get_id()
         c = self.closures.get(key)
         if c is not None:
             return c[1]
         fty = self.fresh_objs.get(key)
         if fty is not None:
-            return SV(t, fty)       # object allocated on this path: its concrete class is known
+            return SV(t, fty[0])       # object allocated on this path: its concrete class is known
         return SV(term, ty)
 
     def is_fresh(self, v):
-        return isinstance(v, SV) and str(z3.simplify(v.term)) in self.fresh_objs
+        return isinstance(v, SV) and z3.simplify(v.term).get_id() in self.fresh_objs
 
     def truthy(self, v, node=None):
         """z3 Bool: Python truthiness of a value"""
